@@ -200,3 +200,31 @@ Proof.
   replace (t =? 1) with false by (symmetry; apply Z.eqb_neq; exact H1).
   reflexivity.
 Qed.
+
+(* ---- totality of tick on well-typed stack instructions (used by C07) ---- *)
+
+Lemma tick_ok_shape m s i size u s3 :
+  in_code m s ->
+  decode (skipn (Z.to_nat (pc s)) (m_code m)) = DOk i size ->
+  (forall idx, i <> IPushStr idx) ->
+  exec m i (pre_exec s size) = R u s3 ->
+  tick m s = end_check m (Next s3).
+Proof.
+  intros [Hi [Hlo Hhi]] Hd Hn He. unfold tick. rewrite Hi.
+  replace ((pc s <? 0) || (pc s >=? code_len m)) with false.
+  2:{ symmetry. apply orb_false_iff. split; [apply Z.ltb_ge; lia|].
+      rewrite Z.geb_leb. apply Z.leb_gt. lia. }
+  rewrite Hd. unfold pre_exec in He.
+  destruct i; try (cbn iota; rewrite He; reflexivity).
+  exfalso. eapply Hn. reflexivity.
+Qed.
+
+Lemma do_trap_total m c s :
+  ttarget_ s <> TNext -> exists s', do_trap m c true s = Next s'.
+Proof.
+  intro Ht. unfold do_trap. destruct s; cbn in *.
+  destruct handler_active, ttarget_; cbn; try (eexists; reflexivity). contradiction.
+Qed.
+
+Lemma end_check_next m t : (exists s', t = Next s') -> exists s', end_check m t = Next s'.
+Proof. intros [s' ->]. cbn. destruct (negb (halted s') && (pc s' >=? code_len m)); eexists; reflexivity. Qed.
